@@ -16,18 +16,24 @@ RULE = ("seeded generator: fixed or dynamic disk, block size (4 KiB..2 MiB; 4 Mi
         "a fixed-disk footer of another size, 512 or 511 bytes), or a foreign footer in the last guest sector right before the real "
         "footer (fixed disks); for dynamic disks the same structures at the start of block 0's data; requests: size, block-edge±1, "
         "tail, full, random, as one history. Non-trivial = model WF, (dynamic with both block states or permuted, or fixed), and a "
-        "request crossing a block boundary (dynamic) / longer than one buffer (fixed); distinct recipe hash.")
+        "request crossing a block boundary (dynamic) / longer than one buffer (fixed); distinct recipe hash. Directed families, present "
+        "in every run: resized disks (footer original_size != current_size, grown and shrunk, fixed and dynamic, optionally a stale footer copy "
+        "at offset 0); sector bitmaps of allocated blocks of plain dynamic disks holding anything (all zero, pseudo-random, first half set, 0xAA, "
+        "ones with zero padding): the data after the bitmap is the guest content; histories in which the file object is moved between two "
+        "requests that are physically consecutive in one allocated block: by the first touch of an unallocated block (BAT read), by somebody "
+        "else seeking / reading the file object (core op \"x\"), or by a second VHD object opened on the same file object and read alternately (op \"y\").")
 ASSUMPTIONS = ["dissect.util AlignedStream as transcribed in Hv/Stream.lean", "struct.Struct('>I') = big-endian u32 (format string extracted)",
                "block sizes that are a multiple of 4096 (8 sectors); for 512..2048-byte blocks the references disagree (DESIGN §C04)"]
 TIMEOUT_CASE = 20.0
 
 
-def footer(size, data_offset, disk_type, legacy=False):
+def footer(size, data_offset, disk_type, legacy=False, orig=None):
+    """size = current_size (what the guest sees now); orig = original_size (what it was created with; differs after a resize)"""
     f = bytearray(512)
     f[0:8] = b"conectix"
     struct.pack_into(">IIQ", f, 8, 0 if legacy else 2, 0x00010000, data_offset)
     struct.pack_into(">I4sI4s", f, 24, 0x2A000000, b"vpc ", 0x00050003, b"Wi2k")
-    struct.pack_into(">QQ", f, 40, size, size)
+    struct.pack_into(">QQ", f, 40, size if orig is None else orig, size)
     struct.pack_into(">II", f, 56, 0x03FF103F, disk_type)
     f[68:84] = bytes(range(16))
     return bytes(f[:511]) if legacy else bytes(f)
@@ -115,6 +121,34 @@ def gen_recipe(rng, tier, big=False, bs=None, nb=None):
             "content": gen_content(rng, size, nested=0.25 if blocks[0] is not None else 0.0, tail=False), "bat_after": rng.random() < 0.25, "hdr_off": rng.choice([512, 512, 1536, 4096]), "seed": rng.randrange(256)}
 
 
+BITMAPS = ["zeros", "random", "half", "alt", "ones-pad0", "tail"]
+
+
+def put_bitmap(im, off, nbytes, spb, kind, p):
+    """sector bitmap of an allocated block (nbytes = bitmap sectors * 512; one bit per sector, MSB first, then padding).
+    For a plain dynamic disk readers do not need it: the block's data is what follows it. Writers leave all kinds of things there:
+    all ones incl. padding (None), ones with zero padding, all zero, only the sectors written so far, garbage."""
+    used = (spb + 7) // 8
+    if kind is None or kind == "ones":
+        im.put_fill(off, nbytes, 0xFF)
+    elif kind == "ones-pad0":
+        im.put_fill(off, min(used, nbytes), 0xFF)
+    elif kind == "zeros":
+        pass
+    elif kind == "random":
+        im.put_pat(off, nbytes, (97 + 13 * p) & 0xFF)
+    elif kind == "half":            # first half of the block's sectors marked
+        im.put_fill(off, max(1, used // 2) if used > 1 else 0, 0xFF)
+        if used == 1:
+            im.put_hex(off, b"\xf0")
+    elif kind == "alt":
+        im.put_fill(off, nbytes, 0xAA)
+    elif kind == "tail":            # only the last sectors marked
+        im.put_fill(off + used - max(1, used // 4), max(1, used // 4), 0x0F if used == 1 else 0xFF)
+    else:
+        raise ValueError(kind)
+
+
 class Truth:
     def __init__(self, r):
         self.r = r
@@ -128,7 +162,7 @@ class Truth:
             im.put_hex(0, pre)
             im.put_pat(len(pre), r["size"] - len(pre) - len(tail), r["seed"])
             im.put_hex(r["size"] - len(tail), tail)
-            ft = footer(r["size"], 0xFFFFFFFFFFFFFFFF, 2, r["legacy"])
+            ft = footer(r["size"], 0xFFFFFFFFFFFFFFFF, 2, r["legacy"], orig=r.get("osize"))
             im.put_hex(r["size"], ft)
             im.finish(r["size"] + len(ft))
             self.im = im
@@ -160,19 +194,22 @@ class Truth:
                 o = data0 + p * stride
                 bat.append(o // 512)
                 self.loc.append(o + bm * 512)
-                im.put_fill(o, bm * 512, 0xFF)
+                put_bitmap(im, o, bm * 512, spb, r.get("bitmap"), p)
                 head = pre[:bs] if len(self.loc) == 1 else b""          # block 0 holds guest offset 0
                 im.put_hex(o + bm * 512, head)
                 im.put_pat(o + bm * 512 + len(head), bs - len(head), (r["seed"] + 31 * p) & 0xFF)
         bat += [0xFFFFFFFF] * r["extra"]
-        ft = footer(r["size"], hdr_off, 3, False)
+        osize = r.get("osize")
+        # the copy at offset 0 is only a backup of the footer at the end; after a resize a writer may have left the old one there
+        ft = footer(osize, hdr_off, 3, False) if r.get("stale_copy") and osize is not None else footer(r["size"], hdr_off, 3, False, orig=osize)
         im.put_hex(0, ft)
         im.put_hex(hdr_off, dyn_header(bat_off, nent, bs))
         im.put_hex(bat_off, b"".join(struct.pack(">I", e) for e in bat))
-        ft2 = footer(r["size"], hdr_off, 3, r["legacy"])
+        ft2 = footer(r["size"], hdr_off, 3, r["legacy"], orig=osize)
         im.put_hex(end, ft2)
         im.finish(end + len(ft2))
         self.im = im
+        self.hdr_off, self.bat_off, self.footer_off = hdr_off, bat_off, end
 
     def read(self, off, n):
         r = self.r
@@ -188,6 +225,20 @@ class Truth:
             out.append(bytes(k) if loc is None else self.im.read_at(loc + ino, k))
             off += k
         return b"".join(out)
+
+
+def header_fields(r):
+    """(name, file offset, width) of every size-like field of the structures a reader uses (all big-endian), from the layout this
+    writer produced: the footer at the end of the file, the dynamic header, the first / last BAT entry in use"""
+    t = Truth(r)
+    fo = t.im.size - (511 if r["legacy"] else 512)
+    fields = [("footer.features", fo + 8, 4), ("footer.data_offset", fo + 16, 8), ("footer.original_size", fo + 40, 8),
+              ("footer.current_size", fo + 48, 8), ("footer.disk_type", fo + 60, 4)]
+    if r["kind"] == "dynamic":
+        h = t.hdr_off
+        fields += [("dynamic_header.data_offset", h + 8, 8), ("dynamic_header.table_offset", h + 16, 8), ("dynamic_header.max_table_entries", h + 28, 4),
+                   ("dynamic_header.block_size", h + 32, 4), ("bat[0]", t.bat_off, 4), (f"bat[{len(r['blocks']) - 1}]", t.bat_off + 4 * (len(r["blocks"]) - 1), 4)]
+    return fields, "big"
 
 
 def gen_queries(rng, r, n):
@@ -228,6 +279,139 @@ def generate(seed, tier):
         r = gen_recipe(rng, tier, big=big)
         align = rng.choice([8192] * 6 + [512, 4096, 65536, 1 << 20, 1536])
         cases.append({"id": f"g{i}", "recipe": r, "align": align, "queries": gen_queries(rng, r, 10 if tier == "quick" else 16)})
+    # between the requests of every second random history somebody else uses the file object (own random stream: the cases above do not move)
+    drng = random.Random(f"C04/disturb/{seed}/{tier}")
+    for i, c in enumerate(cases):
+        if i % 2 == 1:
+            c["queries"] = core.disturbances(drng, c["queries"], Truth(c["recipe"]).im.size)
+    cases += directed(seed, tier)
+    return cases
+
+
+def dyn_recipe(rng, bs, states, style="shuffled", **kw):
+    """explicit dynamic recipe: states = "a"/"u" per block"""
+    nalloc = states.count("a")
+    phys = list(range(nalloc))
+    if style == "reversed":
+        phys.reverse()
+    elif style == "shuffled":
+        rng.shuffle(phys)
+    elif style == "holes":
+        phys = rng.sample(range(nalloc * 2 + 1), nalloc)
+    it = iter(phys)
+    r = {"kind": "dynamic", "size": len(states) * bs, "bs": bs, "blocks": [(next(it) if s == "a" else None) for s in states], "extra": rng.choice([0, 0, 1, 5]),
+         "legacy": False, "content": {"kind": "plain"}, "bat_after": rng.random() < 0.25, "hdr_off": rng.choice([512, 512, 1536, 4096]), "seed": rng.randrange(256)}
+    r.update(kw)
+    return r
+
+
+def gen_states(rng, nb, need=("a", "u")):
+    while True:
+        st = [rng.choice("aau") for _ in range(nb)]
+        if all(x in st for x in need):
+            return st
+
+
+def continuation_history(rng, r, align, how):
+    """(1) read part of allocated block A (whole buffers, ending inside A), (2) something moves the file object without reading
+    block data through this object, (3) go on in A exactly where (1) ended. Expected answers: as always, the guest content.
+    how: "sparse" = first touch of an unallocated block (its BAT entry is read, no data); "xseek" / "xread" / "xend" = somebody else
+    uses the file object; "twin" = a second VHD object on the same file object reads elsewhere; "twin-alt" = both objects read on
+    alternately through the same block."""
+    bs = r["bs"]
+    per = bs // align
+    assert per >= 2
+    A = rng.choice([i for i, p in enumerate(r["blocks"]) if p is not None])
+    sparse = [i for i, p in enumerate(r["blocks"]) if p is None]
+    i = rng.randrange(per - 1)
+    j = rng.randrange(1, per - i)
+    pos = A * bs + (i + j) * align
+    qs = [["s", 0, 2], ["o", A * bs + i * align, j * align]]
+    fsize = Truth(r).im.size
+    if how == "sparse":
+        U = rng.choice(sparse)
+        qs.append(["o", U * bs + rng.randrange(bs), rng.choice([1, 512, align])])
+    elif how == "xseek":
+        qs.append(["x", "seek", rng.randrange(fsize)])
+    elif how == "xread":
+        qs.append(["x", "read", rng.choice([1, 512, 4096])])
+    elif how == "xend":
+        qs.append(["x", rng.choice(["end", "start"])])
+    elif how == "twin":
+        qs.append(["y", rng.randrange(r["size"]), rng.choice([1, 512, align, bs])])
+    if how == "twin-alt":
+        # two readers share one file object and walk through the disk in turns, buffer by buffer
+        p = A * bs + i * align
+        qs = [["s", 0, 2]]
+        for k in range(2 * per + 2):
+            if p >= r["size"]:
+                break
+            qs.append(["o" if k % 2 == 0 else "y", p, align])
+            if k % 2 == 1 or rng.random() < 0.5:
+                p += align
+        return qs
+    tail = rng.choice(["o", "o", "sr"])
+    ln = rng.choice([1, align, align + 1, bs, rng.randrange(1, 2 * bs)])
+    qs += [["o", pos, ln]] if tail == "o" else [["s", pos, 0], ["r", ln]]
+    # and once more, after a plain request somewhere else (the next first touch of another unallocated block, if there is one)
+    others = [u for u in sparse if how != "sparse" or u != U]
+    if others:
+        U2 = rng.choice(others)
+        q = qs[-1]
+        end = pos + ln
+        if end % align == 0 and end // bs == A and end < r["size"]:
+            qs += [["o", U2 * bs, 1], ["o", end, align]]
+    return qs
+
+
+def directed(seed, tier):
+    """families that every run contains (fixed shapes; only details are drawn, from a stream of their own)"""
+    rng = random.Random(f"C04/directed/{seed}/{tier}")
+    cases = []
+    nq = 8 if tier == "quick" else 16
+
+    def add(fam, r, align, queries):
+        r["family"] = fam
+        cases.append({"id": f"d{len(cases)}-{fam}", "recipe": r, "align": align, "queries": queries})
+    # ---- resized disks: original_size != current_size
+    for rep in range(2 if tier == "quick" else 6):
+        for grow in (True, False):
+            for legacy in (False, True):
+                size = rng.choice([4096, 100 * 512, 65536 + 512, 307200, 1 << 20])
+                other = max(512, size + (1 if not grow else -1) * rng.choice([512, size // 2 // 512 * 512 or 512, size - 512 or 512]))
+                if other == size:
+                    other = size + 512
+                r = {"kind": "fixed", "size": size, "osize": other, "legacy": legacy, "seed": rng.randrange(256), "content": {"kind": "plain"}}
+                add("resized", r, rng.choice([8192, 512, 4096]), gen_queries(rng, r, nq))
+            for bs in (4096, 65536, 1 << 19):
+                nb = rng.choice([3, 5, 8])
+                r = dyn_recipe(rng, bs, gen_states(rng, nb), style=rng.choice(["identity", "shuffled", "holes"]))
+                if rng.random() < 0.5:
+                    r["size"] -= rng.randrange(1, bs // 512) * 512
+                size = r["size"]
+                onb = rng.randrange(1, nb) if grow else nb + rng.choice([1, 2, 7])
+                r["osize"] = onb * bs - rng.choice([0, 512])
+                if not grow:
+                    r["extra"] = rng.choice([0, onb - nb])           # a shrunk disk may keep its larger BAT
+                r["stale_copy"] = rng.random() < 0.4
+                add("resized", r, rng.choice([8192, 512, 65536]), gen_queries(rng, r, nq))
+    # ---- sector bitmaps of allocated blocks hold anything
+    for rep in range(2 if tier == "quick" else 6):
+        for k, kind in enumerate(BITMAPS):
+            for bs in ((4096, 65536), (8192, 1 << 19), (4096, 1 << 19))[(k + rep) % 3] + ((1 << 21,) if tier == "thorough" else ()):
+                nb = rng.choice([2, 3, 5, 8])
+                r = dyn_recipe(rng, bs, gen_states(rng, nb, need=("a",)), style=rng.choice(["identity", "reversed", "shuffled", "holes"]), bitmap=kind)
+                if rng.random() < 0.4:
+                    r["size"] -= rng.randrange(1, bs // 512) * 512
+                add(f"bitmap-{kind}", r, rng.choice([8192, 512, 4096, 65536]), gen_queries(rng, r, nq))
+    # ---- histories: the file object is moved between two physically consecutive reads of one block
+    for rep in range(1 if tier == "quick" else 4):
+        for bs, align in ((8192, 512), (8192, 4096), (65536, 512), (65536, 8192), (1 << 19, 8192), (1 << 19, 65536)):
+            for how in ("sparse", "sparse", "xseek", "xread", "xend", "twin", "twin-alt"):
+                nb = rng.choice([3, 4, 6, 9])
+                r = dyn_recipe(rng, bs, gen_states(rng, nb), style=rng.choice(["identity", "reversed", "shuffled", "holes"]))
+                qs = continuation_history(rng, r, align, how)
+                add(f"hist-{how}", r, align, qs + gen_queries(rng, r, 3)[2:])
     return cases
 
 
@@ -245,14 +429,22 @@ def build(case):
     guest = (r.get("content") or {}).get("kind", "plain")
     if r["kind"] == "fixed":
         branches = ["fixed"] + (["legacy511"] if r["legacy"] else []) + ([f"guest:{guest}"] if guest != "plain" else [])
-        crosses = any(q[2] > case["align"] for q in case["queries"])
+        crosses = any(q[2] > case["align"] for q in case["queries"] if q[0] in ("o", "y"))
     else:
         alloc = [p for p in r["blocks"] if p is not None]
         branches = ["dynamic"] + sorted({"a" if p is not None else "u" for p in r["blocks"]}) + \
                    (["permuted"] if alloc != list(range(len(alloc))) else []) + (["legacy511"] if r["legacy"] else []) + \
                    (["bat>4096"] if len(r["blocks"]) > 4096 else []) + ([f"guest:{guest}"] if guest != "plain" else [])
         bs = r["bs"]
-        crosses = any(q[2] > 0 and q[1] < r["size"] and q[1] // bs != (min(q[1] + q[2], r["size"]) - 1) // bs for q in case["queries"])
+        crosses = any(q[2] > 0 and q[1] < r["size"] and q[1] // bs != (min(q[1] + q[2], r["size"]) - 1) // bs for q in case["queries"] if q[0] in ("o", "y"))
+    if r.get("family"):
+        branches.append("directed:" + r["family"])
+    if r.get("osize") not in (None, r["size"]):
+        branches.append("grown" if r["osize"] < r["size"] else "shrunk")
+    if any(q[0] == "x" for q in case["queries"]):
+        branches.append("handle-moved")
+    if core.has_twin(case["queries"]):
+        branches.append("two-objects")
     return Built({"a": t.im}, truth, {"branches": branches, "crosses": crosses, "in_scope": True})
 
 
@@ -261,16 +453,22 @@ def impl_run(case, built):
     v = VHD(built.files["a"].open())
     if v.align != case["align"]:
         raise RuntimeError(f"stream align {v.align} != case align {case['align']}")
-    return core.impl_ops(v, case["queries"])
+    return core.impl_ops(v, case["queries"], raw=v.fh, twin=lambda: VHD(v.fh))
 
 
 def model_lines(case, built):
-    return core.file_lines(built.files) + ["vhd.open a", f"vhd.stream a {case['align']} " + " ".join(core.op_tokens(case["queries"]))]
+    lines = core.file_lines(built.files) + ["vhd.open a", f"vhd.stream a {case['align']} " + " ".join(core.op_tokens(case["queries"]))]
+    if core.has_twin(case["queries"]):      # the second VHD object on the same file: a model run of its own (the model has no shared handle state)
+        lines.append(f"vhd.stream a {case['align']} " + " ".join(core.twin_tokens(case["queries"])))
+    return lines
 
 
 def model_parse(case, built, out):
     wf = ("wf=1" in out[0]) if out and out[0].startswith("ok") else None
-    return {"answers": core.parse_stream_answer(out[1]) if len(out) > 1 else None, "wf": wf, "open": out[0] if out else None}
+    ans = core.parse_stream_answer(out[1]) if len(out) > 1 else None
+    if core.has_twin(case["queries"]):
+        ans = core.merge_twin(case["queries"], ans, core.parse_stream_answer(out[2]) if len(out) > 2 else None)
+    return {"answers": ans, "wf": wf, "open": out[0] if out else None}
 
 
 def nontrivial(case, built, model):
